@@ -25,15 +25,24 @@ extern void mpt_command_clear(const MPT_STRUCT(array) *arr)
 	if (!(buf = arr->_buf)) {
 		return;
 	}
-	len = buf->_used / sizeof(*cmd);
-	cmd = (void *) (buf + 1);
-	
-	for (i = 0; i < len; ++i) {
-		if (cmd[i].cmd) {
-			cmd[i].cmd(cmd[i].arg, 0);
+	/* unlink before notification: handler may use (and change) the command array */
+	for (i = 0; (buf = arr->_buf) && i < (len = buf->_used / sizeof(*cmd)); ++i) {
+		int (*fcn)(void *, void *);
+		void *ctx;
+		cmd = (void *) (buf + 1);
+		if (!(fcn = cmd[i].cmd)) {
+			continue;
 		}
+		ctx = cmd[i].arg;
+		cmd[i].cmd = 0;
+		cmd[i].arg = 0;
+		fcn(ctx, 0);
+		/* notification may have registered commands in slots already passed */
+		i = (size_t) -1;
 	}
-	buf->_used = 0;
+	if ((buf = arr->_buf)) {
+		buf->_used = 0;
+	}
 }
 /*!
  * \ingroup mptEvent
